@@ -268,6 +268,49 @@ func c13Body(sigBlock, sigFinal string, kinds []string) func(rt *rapid.T, c *har
 			}
 			script = append(script, bs)
 		}
+		// Overlay (a third of the histories, when the query route is part of the traffic): the combination that makes a
+		// historical read matter to a later block. Around a session start L a node leaves a chain (block L-2) and is back on
+		// it by L-1; with L the latest height somebody asks the dispatch querier through the ABCI route for the session that
+		// starts at L, at a height where the node was off the chain; after the session has ended a servicer claims for it.
+		hasRoute := false
+		for _, k := range kinds {
+			hasRoute = hasRoute || k == "abciDispatch"
+		}
+		if hasRoute && rapid.SampledFrom([]int{0, 0, 1}).Draw(rt, "overlayHistoricalDispatch") == 1 {
+			var starts []int // block indices b whose height is a session start with room before and after
+			for b := 3; b+int(w.bps)+1 < len(script); b++ {
+				if h := start + int64(b) + 1; w.sessionStart(h) == h {
+					starts = append(starts, b)
+				}
+			}
+			if len(starts) > 0 {
+				bL := starts[rapid.IntRange(0, len(starts)-1).Draw(rt, "overlayAt")]
+				L := start + int64(bL) + 1
+				x := rapid.IntRange(0, len(w.nodes)-1).Draw(rt, "overlayLeaver")
+				y := rapid.IntRange(0, len(w.nodes)-1).Draw(rt, "overlayClaimer")
+				ap := rapid.IntRange(0, 1).Draw(rt, "overlayApp")
+				addTx := func(b int, a c13Action) {
+					script[b].txs = append(script[b].txs, a)
+					script[b].traffic = append(script[b].traffic, nil)
+				}
+				addTx(bL-2, c13Action{kind: "nodeEdit", node: x, amt: 1, desc: fmt.Sprintf("[overlay] nodeEdit node%d chains=1", x)})
+				addTx(bL-1, c13Action{kind: "nodeEdit", node: x, amt: 2, desc: fmt.Sprintf("[overlay] nodeEdit node%d chains=2", x)})
+				back := int64(rapid.IntRange(1, 2).Draw(rt, "overlayBack"))
+				q := c13Action{kind: "abciDispatch", app: ap, chain: w.chains[1], sbh: L, h: back}
+				q.desc = fmt.Sprintf("@0:[overlay] abciDispatch app%d %s sbh=%d back=%d", ap, q.chain, L, back)
+				script[bL+1].traffic[0] = append(script[bL+1].traffic[0], q)
+				bc := bL + int(w.bps) + rapid.IntRange(0, 1).Draw(rt, "overlayClaimDelay")
+				if bc >= len(script) {
+					bc = len(script) - 1
+				}
+				cl := c13Action{kind: "claim", node: y, app: ap, chain: w.chains[1], sbh: L, total: rapid.IntRange(5, 9).Draw(rt, "overlayTotal"), claim: len(claims)}
+				claims = append(claims, c13Claim{node: y, app: ap, chain: cl.chain, sbh: L})
+				cl.desc = fmt.Sprintf("[overlay] claim#%d node%d app%d %s sbh=%d total=%d", cl.claim, y, ap, cl.chain, L, cl.total)
+				addTx(bc, cl)
+				c.Label("historical-dispatch-then-claim-overlay")
+				interesting = true
+			}
+		}
 		for b, bs := range script {
 			s := fmt.Sprintf("b%d{dt=%s absent=%d restart=%v", b, bs.dt, len(bs.absent), bs.restart)
 			for _, a := range bs.txs {
